@@ -34,7 +34,7 @@ ENTRIES = [
     "pipe.lowpass_filter",
     "model.pre_transform",
 ]
-CUTOFFS = [0.2, 0.5, 0.05, 0.86, 0.87, 0.0, -1.0, 2.0]
+CUTOFFS = [0.2, 0.5, 0.05, 0.86, 0.87, 0.0, -1.0, 2.0, 0.21875, 0.12345678]  # the last two: derived values (scale / resolution) with more than three significant digits
 ORDERS = [2, 1, 3]
 
 
